@@ -1,6 +1,7 @@
 (* Properties_C11.v — C11 over the parser model: surrounding text is ignored; a section ends where its hunks end.
    Statements only; proofs in Proofs_Filler.v and Proofs_Unified.v. *)
-From PatchV Require Import Base Lines Hunk LineParser Parser Proofs_Unified Proofs_Filler.
+From PatchV Require Import Base Lines Hunk Locator Formatter Options Applier LineParser Parser World Driver
+     Proofs_Unified Proofs_Filler Proofs_Sections Proofs_Sections_Unified.
 
 (* the header scan does not depend on how many lines came before: k lines further down it takes the same decisions and
    records line numbers k larger *)
@@ -46,3 +47,121 @@ Proof.
   - vm_compute. repeat split; reflexivity.
   - vm_compute. reflexivity.
 Qed.
+
+(* ---------------------------------------------------------------------------------------------------------------
+   C11 over the driver model: the concatenation of sections is the sequence of separate runs; text before, between and
+   after sections changes nothing.  Proofs in Proofs_Sections.v and Proofs_Sections_Unified.v (non-vacuity Examples there). *)
+
+(* (1) One section run after earlier sections summarised by [a] (failure flag, backups taken, report so far) does exactly
+   what it does in a run of its own from the same tree; the earlier sections are felt only through the tree and through
+   the list of backups already taken: when backups are requested, the backup of this section's output file must not be one
+   of them. *)
+Theorem section_state_independent : forall o a st should p s w,
+  (may_backup o = true -> fresh_backup o a (section_target o st p (fs w))) ->
+  process_section o (merge a st) should p s w =
+  map_result (fun '(st', s') => (merge a st', s')) (process_section o st should p s) w.
+Proof. exact Proofs_Sections.process_section_merge'. Qed.
+Print Assumptions section_state_independent.
+
+(* (2) The same for the loop over the remaining sections; [targets_met] lists the output files of the sections the loop of
+   the run of its own meets. *)
+Theorem loop_state_independent : forall o f a fuel st s first w,
+  (may_backup o = true -> forall q, In q (targets_met fuel o f st s w) -> fresh_backup o a q) ->
+  section_loop fuel o f (merge a st) s first w = map_result (merge a) (section_loop fuel o f st s first) w.
+Proof. exact Proofs_Sections.section_loop_merge. Qed.
+Print Assumptions loop_state_independent.
+
+Theorem loop_state_independent_nobackup : forall o f a fuel st s first w,
+  save_backup o = false -> backup_if_mismatch o <> OBYes ->
+  section_loop fuel o f (merge a st) s first w = map_result (merge a) (section_loop fuel o f st s first) w.
+Proof. exact Proofs_Sections.section_loop_merge_nobackup. Qed.
+Print Assumptions loop_state_independent_nobackup.
+
+(* fuel: with more than "bytes + 1" the loop does not depend on it *)
+Theorem loop_fuel_irrelevant : forall o f st s first w k1 k2,
+  length (rest s) + 1 < k1 -> length (rest s) + 1 < k2 ->
+  section_loop k1 o f st s first w = section_loop k2 o f st s first w.
+Proof. exact Proofs_Sections.section_loop_fuel. Qed.
+Print Assumptions loop_fuel_irrelevant.
+
+(* (3) The sum, for the loop (with the fuel process_patch gives each run) and for the whole run. *)
+Theorem loop_sum : forall o f st s first should p s1 found st1 s2 w w1,
+  seof s = false ->
+  parse_patch_header_full (empty_patch f) (strip_size o) s = Ok (should, p, s1, found) ->
+  (if negb found && should then FUnknown else pfmt p) <> FUnknown ->
+  poper p <> OpBinary ->
+  process_section o st should p s1 w = (Ok (st1, s2), w1) ->
+  deferred_writes st1 = [] -> deferred_removals st1 = [] ->
+  (may_backup o = true -> forall q, In q (targets_met (S (S (length (rest s2)))) o f ds0 s2 w1) -> fresh_backup o st1 q) ->
+  section_loop (S (S (length (rest s)))) o f st s first w =
+  map_result (merge st1) (section_loop (S (S (length (rest s2)))) o f ds0 s2 false) w1.
+Proof. exact Proofs_Sections.section_loop_sum. Qed.
+Print Assumptions loop_sum.
+
+Theorem run_sum : forall o f t t2 should p s1 found st1 w w1,
+  format_from_options o = Ok f ->
+  parse_patch_header_full (empty_patch f) (strip_size o) (stream_of t) = Ok (should, p, s1, found) ->
+  (if negb found && should then FUnknown else pfmt p) <> FUnknown ->
+  poper p <> OpBinary ->
+  process_section o ds0 should p s1 w = (Ok (st1, stream_of t2), w1) ->
+  deferred_writes st1 = [] -> deferred_removals st1 = [] ->
+  has_patch o f (stream_of t2) = true ->
+  (may_backup o = true -> forall q, In q (targets_met (S (S (length t2))) o f ds0 (stream_of t2) w1) -> fresh_backup o st1 q) ->
+  process_patch o t w = map_result (after_run st1) (process_patch o t2) w1.
+Proof. exact Proofs_Sections.process_patch_sum. Qed.
+Print Assumptions run_sum.
+
+(* (3) for unified sections, the parser hypotheses discharged: two runs, and any number of runs *)
+Theorem unified_two_runs : forall o f pre h1 hs' st',
+  format_from_options o = Ok f ->
+  Forall clean pre ->
+  Forall wf_hunk (h1 :: hs') ->
+  scan (strip_size o) (st0 (empty_patch f)) (pre ++ [unified_header (oldr h1) (newr h1); first_line h1]) = Some st' ->
+  h_first st' = S (length pre) ->
+  h_body st' = true ->
+  pfmt (header_patch st') = FUnified \/ pfmt (header_patch st') = FGit ->
+  poper (header_patch st') <> OpBinary ->
+  forall t2 st1 sA w w1,
+  tail_ok t2 -> t2 <> [] ->
+  process_section o ds0 true (header_patch st') (strm (emit_hunks (h1 :: hs'))) w = (Ok (st1, sA), w1) ->
+  deferred_writes st1 = [] -> deferred_removals st1 = [] ->
+  has_patch o f (stream_of t2) = true ->
+  (may_backup o = true -> forall q, In q (targets_met (S (S (length t2))) o f ds0 (stream_of t2) w1) -> fresh_backup o st1 q) ->
+  process_patch o (join_lines pre ++ emit_hunks (h1 :: hs')) w = (Ok (exit_of st1, events st1), w1) /\
+  process_patch o ((join_lines pre ++ emit_hunks (h1 :: hs')) ++ t2) w = map_result (after_run st1) (process_patch o t2) w1.
+Proof. exact Proofs_Sections_Unified.unified_sections_sum. Qed.
+Print Assumptions unified_two_runs.
+
+Theorem concatenation_is_sequence : forall o f ts w,
+  format_from_options o = Ok f -> sections_ok o f ts w ->
+  process_patch o (concat ts) w = runs o ts w.
+Proof. exact Proofs_Sections_Unified.sections_sum. Qed.
+Print Assumptions concatenation_is_sequence.
+
+(* text before the first section, and after the last *)
+Theorem text_in_front : forall o f fl t should p' s1 w,
+  format_from_options o = Ok f ->
+  Forall (Filler (strip_size o) (empty_patch f)) fl -> Forall clean fl ->
+  parse_patch_header_full (empty_patch f) (strip_size o) (strm t) = Ok (should, p', s1, true) ->
+  process_patch o (join_lines fl ++ t) w = process_patch o t w.
+Proof. exact Proofs_Sections_Unified.text_before. Qed.
+Print Assumptions text_in_front.
+
+Theorem text_after : forall o f pre h1 hs' st',
+  format_from_options o = Ok f ->
+  Forall clean pre ->
+  Forall wf_hunk (h1 :: hs') ->
+  scan (strip_size o) (st0 (empty_patch f)) (pre ++ [unified_header (oldr h1) (newr h1); first_line h1]) = Some st' ->
+  h_first st' = S (length pre) ->
+  h_body st' = true ->
+  pfmt (header_patch st') = FUnified \/ pfmt (header_patch st') = FGit ->
+  poper (header_patch st') <> OpBinary ->
+  forall t2 st1 sA w w1,
+  tail_ok t2 -> t2 <> [] ->
+  process_section o ds0 true (header_patch st') (strm (emit_hunks (h1 :: hs'))) w = (Ok (st1, sA), w1) ->
+  deferred_writes st1 = [] -> deferred_removals st1 = [] ->
+  ends_here o f (stream_of t2) = true ->
+  process_patch o ((join_lines pre ++ emit_hunks (h1 :: hs')) ++ t2) w = (Ok (exit_of st1, events st1), w1) /\
+  process_patch o ((join_lines pre ++ emit_hunks (h1 :: hs')) ++ t2) w = process_patch o (join_lines pre ++ emit_hunks (h1 :: hs')) w.
+Proof. exact Proofs_Sections_Unified.unified_section_text_after. Qed.
+Print Assumptions text_after.
